@@ -58,8 +58,7 @@ def full_test(t):
 
 
 def is_exhaust(t):
-    return t[0] == "bin" and t[1] == "==" and ((t[2] == POS and is_len_of(t[3], SEQ)) or
-                                                (t[3] == POS and is_len_of(t[2], SEQ)))
+    return exhaustion_verdict(t, True) is not None
 
 
 def conjuncts(t):
@@ -105,7 +104,7 @@ def classify(sp):
     if not sp.conds:
         return "?"
     t, pol, _ = sp.conds[0]
-    if is_exhaust(t) and pol:
+    if exhaustion_verdict(t, pol) is True:
         return "exhaustion"
     for t, pol, _ in sp.conds[1:3]:
         if t[0] == "bin" and t[1] in ("<", "<=", "==", "!=") and contains(t, lambda s: s[0] == "index" and s[1][0] == "const"):
@@ -137,12 +136,12 @@ def run(ctx, P, which):
     fnew = ctx.need(P + ".G", g["new"])
     if fv is None or fnew is None:
         return None
-    loop = next((n for n in fv.nodes if n.get("k") == "loop"), None)
+    iter_root, loop = iteration_node(fv)
     if loop is None:
         ctx.fail(P + ".S", "%s:loop" % name, "main loop of next() not found", fv.fn["sp"])
         return None
     try:
-        paths = sym_paths(fv, loop["body"])
+        paths = sym_paths(fv, iter_root)
     except TooManyPaths:
         ctx.fail(P + ".S", "%s:paths" % name, "too many paths in next()", line_of(loop))
         return None
@@ -426,10 +425,10 @@ def buffer_rules(ctx, P, which, paths=None):
     fv = ctx.need(P + ".X", g["next"])
     if fv is None:
         return
-    loop = next((n for n in fv.nodes if n.get("k") == "loop"), None)
+    iter_root, loop = iteration_node(fv)
     if paths is None:
-        paths = sym_paths(fv, loop["body"])
-    inner = [n for n in walk(loop["body"]) if n.get("k") == "for"]
+        paths = sym_paths(fv, iter_root)
+    inner = [n for n in walk(loop["body"]) if n.get("k") in ("for", "while")]
     ctx.check(P + ".X", "%s:scan_loops" % name, len(inner) == 2, "two buffer scans (rescan, first fill)",
               "expected the rescan and the first-fill scan, found %d inner loops" % len(inner), line_of(loop))
     for i, l in enumerate(inner):
